@@ -214,6 +214,14 @@ func runWorld(spec *worldSpec, r *explore.Replayer) *worldRun {
 	generation := func(gen int, reqs []reqSpec, allowCrash bool) verifrt.Reason {
 		s := verifrt.New(r)
 		s.AllowCrash = allowCrash
+		if gen > 1 {
+			h := uint64(gen)
+			// generation 2 starts from what is persisted AND from what generation 1's callers were told
+			for _, c := range w.digest() + "||" + w.label() {
+				h = h*1099511628211 ^ uint64(c)
+			}
+			s.Salt = h
+		}
 		cmd := command.New(w.Store, command.NewDefaultLocker(), sharedCompiler, command.NewReferencer(), bus.NewLedgerMonitor(w.Pub, "l1"))
 		if err := cmd.Init(ctx); err != nil {
 			panic(err)
@@ -227,7 +235,10 @@ func runWorld(spec *worldSpec, r *explore.Replayer) *worldRun {
 				var cancel context.CancelFunc
 				rctx, cancel = context.WithCancel(ctx)
 				cancels = append(cancels, cancel)
-				s.Spawn("cancel-"+reqs[i].Name, false, func() { cancel() })
+				s.Spawn("cancel-"+reqs[i].Name, false, func() {
+					verifrt.PointOn("cancel context", "real")
+					cancel()
+				})
 			}
 			s.Spawn(reqs[i].Name, false, func() { runRequest(w, cmd, rctx, res) })
 		}
